@@ -24,11 +24,11 @@ func init() {
 	core.Register(&core.Check{ID: "C10", Level: "model_checking", Run: run, Worker: worker, Replay: replay})
 	// every Limit() answer of every rate limiter is an environment choice while a scenario runs
 	rate.VerifLimit = func(rl *rate.Limiter) (bool, bool) {
-		if sched.Active() == nil {
-			return false, false
-		}
 		if forced != nil {
 			return *forced, true
+		}
+		if sched.Active() == nil {
+			return false, false
 		}
 		return sched.Choose(2, "rate.Limit") == 1, true
 	}
@@ -386,6 +386,7 @@ func worker(c *core.Ctx, args []string) {
 
 func run(c *core.Ctx) {
 	partFanout(c)
+	partBacklog(c)
 	bound := 2
 	if !c.Quick() {
 		bound = 3
@@ -429,6 +430,11 @@ func replay(c *core.Ctx, raw json.RawMessage) {
 	var fc fanCase
 	if json.Unmarshal(raw, &fc) == nil && fc.Part == "fanout" {
 		runFan(c, fc)
+		return
+	}
+	var bc backlogCase
+	if json.Unmarshal(raw, &bc) == nil && bc.Part == "backlog" {
+		runBacklog(c, bc)
 		return
 	}
 	sc := scenarios()[cs.Scenario]
